@@ -67,10 +67,18 @@ class Solution:
         self.uuid = uuids['']
         self._uuids = uuids
         self._projects = {}
+        self._outputs = set()
+
+    def claim_outputs(self, outputs):
+        # Each file may only be produced by one project; fail like the other
+        # backends do when a script names an output twice.
+        for i in outputs:
+            if i.path in self._outputs:
+                raise ValueError('project for {!r} already exists'.format(i))
+            self._outputs.add(i.path)
 
     def __setitem__(self, key, value):
-        if key in self._projects:
-            raise ValueError('project for {!r} already exists'.format(key))
+        self.claim_outputs([key])
         value.set_uuid(self._uuids)
         self._projects[key] = value
 
